@@ -42,6 +42,7 @@ import (
 	"github.com/codenotary/immudb/embedded/logger"
 	"github.com/codenotary/immudb/embedded/multierr"
 	"github.com/codenotary/immudb/embedded/tbtree"
+	"github.com/codenotary/immudb/embedded/verifhook"
 	"github.com/codenotary/immudb/embedded/watchers"
 	"github.com/codenotary/immudb/pkg/helpers/semaphore"
 	"github.com/codenotary/immudb/pkg/helpers/slices"
@@ -765,6 +766,10 @@ func OpenWith(path string, vLogs []appendable.Appendable, txLog, cLog appendable
 			store.Close()
 			return nil, err
 		}
+	}
+
+	if verifhook.On {
+		verifhook.Emit("Opened", store.path, committedTxID, precommittedTxID, store.aht.Size())
 	}
 
 	if store.synced {
@@ -1765,6 +1770,10 @@ func (s *ImmuStore) precommit(ctx context.Context, otx *OngoingTx, hdr *TxHeader
 		}
 	}
 
+	if verifhook.On {
+		verifhook.Emit("ValuesAppended", s.path, ctx)
+	}
+
 	s.mutex.Lock()
 	defer s.mutex.Unlock()
 
@@ -2034,6 +2043,9 @@ func (s *ImmuStore) performPrecommit(tx *Tx, entries []*EntrySpec, ts int64, blT
 	s.precommittedTxLogSize += int64(txPrefixLen + txSize)
 
 	s.inmemPrecommitWHub.DoneUpto(s.inmemPrecommittedTxID)
+	if verifhook.On {
+		verifhook.Emit("Precommit", s.path, tx.header.ID, alh, tx.header.PrevAlh, tx.header.BlTxID, tx.header.BlRoot, txOff, txSize, s.aht.Size())
+	}
 
 	if !s.synced {
 		s.durablePrecommitWHub.DoneUpto(s.inmemPrecommittedTxID)
@@ -2105,6 +2117,9 @@ func (s *ImmuStore) DiscardPrecommittedTxsSince(txID uint64) (int, error) {
 	if txID-1 == s.committedTxID {
 		s.inmemPrecommittedTxID = s.committedTxID
 		s.inmemPrecommittedAlh = s.committedAlh
+		if verifhook.On {
+			verifhook.Emit("Discard", s.path, txID, txsToDiscard)
+		}
 		return txsToDiscard, nil
 	}
 
@@ -2118,6 +2133,9 @@ func (s *ImmuStore) DiscardPrecommittedTxsSince(txID uint64) (int, error) {
 
 	s.inmemPrecommittedTxID = txID - 1
 	s.inmemPrecommittedAlh = alh
+	if verifhook.On {
+		verifhook.Emit("Discard", s.path, txID, txsToDiscard)
+	}
 
 	return txsToDiscard, nil
 }
@@ -2140,6 +2158,9 @@ func (s *ImmuStore) AllowCommitUpto(txID uint64) error {
 		s.commitAllowedUpToTxID = s.inmemPrecommittedTxID
 	} else {
 		s.commitAllowedUpToTxID = txID
+	}
+	if verifhook.On {
+		verifhook.Emit("Allow", s.path, s.commitAllowedUpToTxID)
 	}
 
 	if !s.synced {
@@ -2211,6 +2232,9 @@ func (s *ImmuStore) mayCommit() error {
 	if err != nil {
 		return err
 	}
+	if verifhook.On {
+		verifhook.Emit("CLogFlushed", s.path, s.committedTxID, commitUpToTxID)
+	}
 
 	err = s.cLogBuf.advanceReader(txsCountToBeCommitted)
 	if err != nil {
@@ -2219,6 +2243,9 @@ func (s *ImmuStore) mayCommit() error {
 
 	s.committedTxID = commitUpToTxID
 	s.committedAlh = commitUpToTxAlh
+	if verifhook.On {
+		verifhook.Emit("Committed", s.path, commitUpToTxID, commitUpToTxAlh)
+	}
 
 	s.commitWHub.DoneUpto(commitUpToTxID)
 
@@ -3413,6 +3440,10 @@ func (s *ImmuStore) sync() error {
 		}
 	}
 
+	if verifhook.On {
+		verifhook.Emit("VLogsSynced", s.path)
+	}
+
 	err := s.txLog.Flush()
 	if err != nil {
 		return err
@@ -3421,6 +3452,9 @@ func (s *ImmuStore) sync() error {
 	err = s.txLog.Sync()
 	if err != nil {
 		return err
+	}
+	if verifhook.On {
+		verifhook.Emit("TxLogSynced", s.path, s.inmemPrecommittedTxID)
 	}
 
 	err = s.durablePrecommitWHub.DoneUpto(s.inmemPrecommittedTxID)
@@ -3479,10 +3513,16 @@ func (s *ImmuStore) sync() error {
 	if err != nil {
 		return err
 	}
+	if verifhook.On {
+		verifhook.Emit("CLogFlushed", s.path, s.committedTxID, commitUpToTxID)
+	}
 
 	err = s.cLog.Sync()
 	if err != nil {
 		return err
+	}
+	if verifhook.On {
+		verifhook.Emit("CLogSynced", s.path, commitUpToTxID)
 	}
 
 	err = s.cLogBuf.advanceReader(txsCountToBeCommitted)
@@ -3492,6 +3532,9 @@ func (s *ImmuStore) sync() error {
 
 	s.committedTxID = commitUpToTxID
 	s.committedAlh = commitUpToTxAlh
+	if verifhook.On {
+		verifhook.Emit("Committed", s.path, commitUpToTxID, commitUpToTxAlh)
+	}
 
 	s.commitWHub.DoneUpto(commitUpToTxID)
 
@@ -3554,6 +3597,9 @@ func (s *ImmuStore) Close() error {
 	used, _, _ := s.txPool.Stats()
 	if used > 0 {
 		merr.Append(errors.New("not all tx holders were released"))
+	}
+	if verifhook.On {
+		verifhook.Emit("Closed", s.path)
 	}
 
 	return merr.Reduce()
